@@ -57,18 +57,27 @@ pub const AAGUID: [u8; 16] = [0xa1, 0xb2, 0xc3, 0xd4, 1, 2, 3, 4, 5, 6, 7, 8, 9,
 
 pub fn mk_auth<S: CredentialStore>(store: S, uv: RecUv, cfg: AuthCfg) -> Authenticator<S, RecUv> {
     let mut a = Authenticator::new(Aaguid::from(AAGUID), store, uv);
-    {
+    let with_transports = |a: Authenticator<S, RecUv>| {
         use passkey_types::webauthn::AuthenticatorTransport as T;
-        a = match cfg.transports {
+        match cfg.transports {
             1 => a.transports(vec![]),
             2 => a.transports(vec![T::Usb]),
             3 => a.transports(vec![T::Internal, T::Hybrid, T::Ble, T::Nfc]),
             _ => a,
-        };
+        }
+    };
+    // the transports builder is called before the setters or after them (an application may
+    // configure in either order; the result must be the same authenticator)
+    let builder_last = matches!(cfg.id_len, Some(l) if l % 2 == 0);
+    if !builder_last {
+        a = with_transports(a);
     }
     a.set_make_credentials_with_signature_counter(cfg.counters);
     if let Some(l) = cfg.id_len {
         a.set_make_credential_id_length(CredentialIdLength::from(l));
+    }
+    if builder_last {
+        a = with_transports(a);
     }
     match cfg.hmac {
         HmacCfg::None => a,
